@@ -41,7 +41,16 @@ def rule_dead_task_wakes_run(ctx: Ctx, out: Collector) -> None:
     helper attaches a done-callback that wakes run(), or nothing guarantees the wake-up."""
     mgr = ctx.manager_class()
     n = 0
+    callbacks = set()
     for m in mgr.methods.values():
+        for c in ast.walk(m.node):
+            if isinstance(c, ast.Call) and isinstance(c.func, ast.Attribute) and c.func.attr == 'add_done_callback':
+                for a in c.args:
+                    if isinstance(a, ast.Attribute):
+                        callbacks.add(a.attr)
+    for m in mgr.methods.values():
+        if m.name in callbacks:
+            continue
         env = FuncEnv.of(ctx.p, m)
         spawns = [c for c in env.own_nodes() if isinstance(c, ast.Call)
                   and any(t[0] == 'ext' and (t[1].endswith('.create_task') or t[1].endswith('ensure_future')) for t in env.resolve_call(c))]
@@ -252,7 +261,26 @@ def rule_pipeline_complete_on_every_exit(ctx: Ctx, out: Collector) -> None:
         raise AnalysisError('PipelineChart.run emits no on_pipeline_start (EV-7 anchor vanished)')
     cons = f'{unit.module.name}::{unit.qualname}::on_pipeline_complete closes the history on every exit [complete on every exit]'
     goals = {g.rexit['cancel'], g.rexit['exc']}
-    path = find_path(g, starts[0].id, goals, avoid=completes, labels=ALL_LABELS)
+    # a cancellation inside the start emission itself ends a run that nobody was told about yet: abnormal edges that leave from
+    # inside the start emission (or from inside a completion emission) do not count
+    def inside(ev: Ev, call_ids: set) -> bool:
+        if ev.id in call_ids:
+            return True
+        i = ev.inst
+        while i is not None and i.parent is not None:
+            if any(g.evs[c].node is i.call for c in call_ids):
+                return True
+            i = i.parent
+        return False
+    s_ids = {starts[0].id}
+    region = {ev.id for ev in g.evs if inside(ev, s_ids | completes)}
+    srch = Search(ctx.p, g, ALL_LABELS)
+
+    def edge_ok(ev, lab, mev):
+        return not (lab in ('exc', 'cancel') and ev.id in region)
+    res = srch.run([(starts[0].id, 0, frozenset())], lambda e, st, f: None if e.id in completes else 0,
+                   lambda e, st, f: e.id in goals, edge_ok=edge_ok)
+    path = res[0] if res else None
     if path is None:
         out.ok('EV-7', cons, starts[0].where(), 'every exit after on_pipeline_start passes on_pipeline_complete')
     else:
